@@ -470,7 +470,7 @@ def walk_trace(inv, j, k):
             elif p[0] == "record":
                 log.append(("record", int(p[1]), dict(states)))
             elif p[0] == "update":
-                log.append(("update", [int(x) for x in p[1:7]], dict(states), list(running)))
+                log.append(("update", [int(x) for x in p[1:7]], dict(states), list(running), int(p[7]) if len(p) > 7 else None))
             elif p[0] == "dirty":
                 log.append(("verdict", int(p[1]), p[2]))
         out.append({"graph": g, "states": dict(states), "log": log, "started": started, "failed": failed,
@@ -624,6 +624,8 @@ def monitor_c19(run, where, inv, j, k):
             if ev[0] != "update":
                 continue
             c, st, running = ev[1], ev[2], ev[3]
+            if len(ev) > 4 and ev[4] is not None and ev[4] != sum(c):
+                run.report_failure(None, "the reported total %d is not the sum %d of the per-state counts %r" % (ev[4], sum(c), c), where)
             census = [0] * 6
             order = ["Want", "Ready", "Queued", "Running", "Done", "Failed"]
             for b, s in st.items():
